@@ -38,6 +38,7 @@ impl<'a> Job<'a> {
     }
 
     fn one(&mut self, s: &str, with_lookup: bool) {
+        mark(s);
         if let Some(f) = self.trace.as_mut() {
             let _ = writeln!(f, "{}", serde_json::to_string(s).unwrap());
             let _ = f.flush();
@@ -112,6 +113,7 @@ impl<'a> Job<'a> {
 
 impl<'a> Job<'a> {
     fn stream(&mut self, syms: &[&str]) {
+        mark(&serde_json::to_string(syms).unwrap_or_default());
         self.states += 1;
         let toks = stream::htoks(syms);
         let lang = self.lang;
@@ -134,6 +136,18 @@ impl<'a> Job<'a> {
                 }
             }
         }
+    }
+}
+
+/// progress of the child (inputs started) and the input being processed, for the child's own stall watchdog
+static PROGRESS: std::sync::atomic::AtomicU64 = std::sync::atomic::AtomicU64::new(0);
+static CURRENT: std::sync::Mutex<String> = std::sync::Mutex::new(String::new());
+const STALL_SECS: u64 = 20;
+fn mark(input: &str) {
+    PROGRESS.fetch_add(1, std::sync::atomic::Ordering::Relaxed);
+    if let Ok(mut c) = CURRENT.lock() {
+        c.clear();
+        c.push_str(input);
     }
 }
 
@@ -215,20 +229,63 @@ pub fn deep_recursion_probe(n: usize, stack_kib: usize) -> Result<(usize, Option
         let err = String::from_utf8_lossy(&b.stderr);
         return Err(format!("probes/deeprec failed to build:\n{}", err.lines().filter(|l| l.starts_with("error")).take(10).collect::<Vec<_>>().join("\n")));
     }
-    let o = Command::new(format!("{target}/debug/deeprec-probe"))
+    // the probe gets a wall limit of its own: a call that never returns there must not hang the check
+    let mut child = Command::new(format!("{target}/debug/deeprec-probe"))
         .args([n.to_string(), stack_kib.to_string()])
         .stdin(Stdio::null())
-        .output()
+        .stdout(Stdio::piped())
+        .stderr(Stdio::piped())
+        .spawn()
         .map_err(|e| format!("cannot start deeprec-probe: {e}"))?;
+    let (mut so, mut se) = (child.stdout.take().unwrap(), child.stderr.take().unwrap());
+    let r1 = std::thread::spawn(move || {
+        let mut s = Vec::new();
+        let _ = std::io::Read::read_to_end(&mut so, &mut s);
+        s
+    });
+    let r2 = std::thread::spawn(move || {
+        let mut s = Vec::new();
+        let _ = std::io::Read::read_to_end(&mut se, &mut s);
+        s
+    });
+    let limit = Duration::from_secs(if n <= 12_000 { 180 } else { 900 });
+    let start = Instant::now();
+    let status = loop {
+        match child.try_wait() {
+            Ok(Some(st)) => break Some(st),
+            Ok(None) => {}
+            Err(e) => return Err(format!("waiting for deeprec-probe: {e}")),
+        }
+        if start.elapsed() > limit {
+            let _ = child.kill();
+            let _ = child.wait();
+            break None;
+        }
+        std::thread::sleep(Duration::from_millis(50));
+    };
+    let (stdout, stderr) = (r1.join().unwrap_or_default(), r2.join().unwrap_or_default());
+    struct Out {
+        stdout: Vec<u8>,
+        stderr: Vec<u8>,
+        status: Option<std::process::ExitStatus>,
+    }
+    let o = Out { stdout, stderr, status };
+    if o.status.is_none() {
+        let out = String::from_utf8_lossy(&o.stdout);
+        let lines = out.lines().filter(|l| l.starts_with("ok ")).count();
+        let last = out.lines().last().unwrap_or("").to_string();
+        return Ok((lines, Some(format!("the probe did not finish within {} s (a call that does not return); last line: {last}", limit.as_secs()))));
+    }
+    let status = o.status.unwrap();
     let out = String::from_utf8_lossy(&o.stdout);
     let err = String::from_utf8_lossy(&o.stderr);
     let lines = out.lines().filter(|l| l.starts_with("ok ")).count();
     if let Some(p) = out.lines().find(|l| l.starts_with("panic ")) {
         return Ok((lines, Some(format!("a call panicked in the dev-profile build: {p}"))));
     }
-    if !o.status.success() || !out.lines().any(|l| l == "done") {
+    if !status.success() || !out.lines().any(|l| l == "done") {
         let why = err.lines().find(|l| l.contains("overflow") || l.contains("abort") || l.contains("panicked")).unwrap_or("no diagnostic").to_string();
-        return Ok((lines, Some(format!("the probe process died ({}): {why}", o.status))));
+        return Ok((lines, Some(format!("the probe process died ({status}): {why}"))));
     }
     Ok((lines, None))
 }
@@ -241,6 +298,21 @@ pub fn child(args: &[String]) -> i32 {
     let nshards: usize = args[3].parse().unwrap();
     let tier = if args[4] == "thorough" { Tier::Thorough } else { Tier::Quick };
     let trace = args.get(5).map(|p| std::fs::File::create(p).unwrap());
+    // the child watches itself: no new input started for STALL_SECS means the current one does not terminate
+    std::thread::spawn(|| {
+        let mut last = (0u64, Instant::now());
+        loop {
+            std::thread::sleep(Duration::from_millis(250));
+            let p = PROGRESS.load(std::sync::atomic::Ordering::Relaxed);
+            if p != last.0 {
+                last = (p, Instant::now());
+            } else if p > 0 && last.1.elapsed() > Duration::from_secs(STALL_SECS) {
+                let cur = CURRENT.lock().map(|c| c.clone()).unwrap_or_default();
+                println!("{}", json!({"stalled": cur}));
+                std::process::exit(3);
+            }
+        }
+    });
     let facade = l.facade();
     let mut job = Job { l, lang: &facade, thrs: &THRS, trace, states: 0, transitions: 0, traces: 0, outcomes: Default::default(), viols: vec![], sample: None };
     match part {
@@ -338,10 +410,48 @@ pub fn child(args: &[String]) -> i32 {
                 });
             }
         }
+        "h" => {
+            // word-like string literals of the CURRENT source of this language's module that no alphabet knows:
+            // every text of <= 4 words over {the literal, an ordinary word, one, unit, tens, the ambiguous words}
+            // that contains the literal
+            let c = vocab::cls(l);
+            for w in vocab::new_source_literals(l) {
+                let mut a: Vec<String> = vec![w.clone(), c.ordinary.clone(), c.one.clone(), c.unit.clone(), c.tens.clone()];
+                match l {
+                    L::En => a.push("o".into()),
+                    L::Fr => a.extend(["neuf", "le"].iter().map(|x| x.to_string())),
+                    _ => {}
+                }
+                let n = a.len();
+                let mut buf = String::new();
+                for first in 0..n {
+                    for_each_seq(n, 4, first, &mut |idx| {
+                        if !idx.contains(&0) {
+                            return;
+                        }
+                        buf.clear();
+                        for (j, &i) in idx.iter().enumerate() {
+                            if j > 0 {
+                                buf.push(' ');
+                            }
+                            buf.push_str(&a[i]);
+                        }
+                        job.one(&buf, false);
+                        // capitalised first word (sentence start)
+                        let mut cs = buf.chars();
+                        if let Some(f0) = cs.next() {
+                            let cap: String = f0.to_uppercase().collect::<String>() + cs.as_str();
+                            if cap != buf {
+                                job.one(&cap, false);
+                            }
+                        }
+                    });
+                }
+            }
+        }
         "g" => {
             // very large numbers: every sequence of <= k words over nine, tens, hundred, one and the scale words
-            // (values beyond u64 / u128 / f64 precision)
-            job.thrs = &T_C;
+            // (values beyond u64 / u128 / f64 precision), at every threshold of the list
             let big = vocab::big_number_words(l, &facade);
             let n = big.len();
             let k = tier.pick(4usize, 5);
@@ -379,6 +489,8 @@ pub fn child(args: &[String]) -> i32 {
 }
 
 enum ChildEnd {
+    /// the child stopped itself: this input made no progress for STALL_SECS
+    Stalled(String),
     Done(String),
     Crashed(String),
     TimedOut,
@@ -408,6 +520,11 @@ fn run_child(exe: &str, args: &[String], limit: Duration, trace: Option<&str>, s
         match ch.try_wait() {
             Ok(Some(st)) => {
                 let s = reader.join().unwrap_or_default();
+                if st.code() == Some(3) {
+                    if let Some(v) = s.lines().filter_map(|l| serde_json::from_str::<Value>(l).ok()).find_map(|v| v.get("stalled").and_then(|x| x.as_str()).map(|x| x.to_string())) {
+                        return ChildEnd::Stalled(v);
+                    }
+                }
                 return if st.success() { ChildEnd::Done(s) } else { ChildEnd::Crashed(format!("{st}")) };
             }
             Ok(None) => {}
@@ -441,12 +558,13 @@ pub fn run(tier: Tier) -> i32 {
     let exe = std::env::current_exe().unwrap().to_string_lossy().to_string();
     let mut jobs: Vec<Vec<String>> = vec![];
     for l in langs::ALL {
-        for part in ["a", "b", "c", "d", "g"] {
+        for part in ["a", "b", "c", "d", "g", "h"] {
             let nsh = match (part, tier) {
                 ("a", Tier::Quick) => 4,
                 ("a", Tier::Thorough) => 16,
                 ("b", Tier::Quick) => 2,
                 ("b", Tier::Thorough) => 16,
+                ("h", _) => 1,
                 ("g", Tier::Quick) => 2,
                 ("g", Tier::Thorough) => 8,
                 ("d", Tier::Quick) => 2,
@@ -495,6 +613,15 @@ pub fn run(tier: Tier) -> i32 {
             };
             match run_child(&exe, args, limit, None, None) {
                 ChildEnd::Done(out) => handle_out(&out, &mut acc),
+                ChildEnd::Stalled(input) => ctx.report(&mut acc, Violation {
+                    lang: args[1].clone(),
+                    entry: "any".into(),
+                    input,
+                    threshold: None,
+                    clause: "terminates".into(),
+                    expected: "returns within 20 s".into(),
+                    observed: "no progress for 20 s on this input".into(),
+                }),
                 end => {
                     // crash (abort, stack overflow, OOM) or timeout: rerun traced to pin the input
                     let trace = format!("{}/target/c03-trace-{}-{}-{}.txt", verif_root(), args[0], args[1], args[2]);
@@ -520,6 +647,15 @@ pub fn run(tier: Tier) -> i32 {
                             clause: "returns (process must not abort)".into(),
                             expected: "a value".into(),
                             observed: format!("child process died: {st}"),
+                        }),
+                        ChildEnd::Stalled(input) => ctx.report(&mut acc, Violation {
+                            lang: args[1].clone(),
+                            entry: "any".into(),
+                            input,
+                            threshold: None,
+                            clause: "terminates".into(),
+                            expected: "returns within 20 s".into(),
+                            observed: "no progress for 20 s on this input".into(),
                         }),
                         ChildEnd::TimedOut => ctx.report(&mut acc, Violation {
                             lang: args[1].clone(),
@@ -571,7 +707,7 @@ pub fn run(tier: Tier) -> i32 {
     acc.nontrivial = acc.states;
     let cov = json!({
         "exhaustive": true,
-        "rule": "(a) every string of length <= k over 21 characters; (b) every sequence of <= k atoms over the full vocabulary plus {\"\",-,--,-a,a-} joined by space and by hyphen; (c) a fixed smoke list of long inputs (NOT an exhaustive space); (g) every sequence of <= 4 (thorough 5) words over nine, tens, hundred, one and the scale words; (d) every token stream of <= k tokens over class words and compound fragments, each plain, '~' or '!' hinted, through find_numbers, find_numbers_iter and replace_numbers_in_stream; each x 7 languages x {text2digits, replace_numbers_in_text, find_numbers, find_numbers_iter drained, replace_numbers_in_stream} x thresholds; get_interpreter_for on the strings of (a)",
+        "rule": "(a) every string of length <= k over 21 characters; (b) every sequence of <= k atoms over the full vocabulary plus {\"\",-,--,-a,a-} joined by space and by hyphen; (c) a fixed smoke list of long inputs (NOT an exhaustive space); (h) every text of <= 4 words over {a word-like string literal of the current source tree that no alphabet knows, ordinary word, one, unit, tens, ambiguous words} containing that literal; (g) every sequence of <= 4 (thorough 5) words over nine, tens, hundred, one and the scale words; (d) every token stream of <= k tokens over class words and compound fragments, each plain, '~' or '!' hinted, through find_numbers, find_numbers_iter and replace_numbers_in_stream; each x 7 languages x {text2digits, replace_numbers_in_text, find_numbers, find_numbers_iter drained, replace_numbers_in_stream} x thresholds; get_interpreter_for on the strings of (a)",
         "characters": CHARS.iter().map(|c| format!("U+{:04X}", *c as u32)).collect::<Vec<_>>(),
         "bounds": {"a_max_len": tier.pick(4, 6), "a_len6_thresholds": "0, NaN only", "b_max_atoms": tier.pick(2, 3), "c_repetitions": tier.pick(3000, 20_000), "e_tokens": deep_n, "e_stack_kib": deep_kib, "e_short_streams": "dev-profile build: every stream of <= 3 of 11 class words (<= 4 of the first 7) per language x thresholds {0, 10, 50, 1000, inf, NaN, -1} x 4 entry points"},
         "thresholds": THRS.iter().map(|t| thr_name(*t)).collect::<Vec<_>>(),
